@@ -14,11 +14,11 @@
 package http
 
 import (
-	"math"
 	"bytes"
 	"context"
 	"io"
 	"io/ioutil"
+	"math"
 	"math/rand"
 	"net"
 	"net/http"
